@@ -89,16 +89,23 @@ __CPROVER_assigns(verif_exc);
 #define ID_PTR(id) ((const void*)(id))
 #define C17_PRESENT(self, id) g_present
 #define C17_ELEM(self, id) (&g_vals->data[0])
-#define C17_ELEM_FRAME(self, id) (C17_POS_FRAME_ALL(self) && C17_NAMED_FRAME(0))
-#define C17_IDENT_REQ __CPROVER_requires(g_vals->size == 1)      /* a repeated option has no single value: not specified */
+/* the option was given once (a repeated option has no single value: not specified); positional is not touched.
+ * The frame ("no other used flag changes") is the assigns clause here: one conditional target, checked by --dfcc. */
+#define C17_IDENT_REQ(self) \
+  __CPROVER_requires(__CPROVER_is_fresh(self, sizeof(Arguments))) \
+  __CPROVER_requires(__CPROVER_is_fresh(g_vals, sizeof(ArgVec))) \
+  __CPROVER_requires(g_vals->size == 1) \
+  __CPROVER_requires(__CPROVER_is_fresh(g_vals->data, sizeof(ArgText)))
 #else
 #define IdentT size_t
 #define GET_STRING(self, id, f) Arguments_get_string_pos(self, id, f)
 #define ID_PTR(id) ((const void*)0)
 #define C17_PRESENT(self, id) ((id) < (self)->positional.size)
 #define C17_ELEM(self, id) (&(self)->positional.data[id])
-#define C17_ELEM_FRAME(self, id) (C17_POS_FRAME(self, id) && C17_NAMED_FRAME_ALL)
-#define C17_IDENT_REQ
+#define C17_IDENT_REQ(self) \
+  __CPROVER_requires(__CPROVER_is_fresh(self, sizeof(Arguments))) \
+  __CPROVER_requires((self)->positional.size <= C17_MAXVEC) \
+  __CPROVER_requires(__CPROVER_is_fresh((self)->positional.data, (self)->positional.size * sizeof(ArgText)))
 #endif
 #define C17_ETEXT(self, id) (&C17_ELEM(self, id)->text)
 
@@ -113,7 +120,7 @@ __CPROVER_assigns(verif_exc);
 #else
 #define C17_CASE_REQ(self, id) __CPROVER_requires(!C17_PRESENT(self, id))
 #endif
-#define C17_TYPED_REQ(self, id) C17_GETTER_REQ(self) C17_IDENT_REQ C17_CASE_REQ(self, id) __CPROVER_requires(g_ncalls == 0)
+#define C17_TYPED_REQ(self, id) C17_IDENT_REQ(self) C17_CASE_REQ(self, id) __CPROVER_requires(verif_exc == EXC_none && g_ncalls == 0)
 #define C17_TYPED_ASSIGNS(self, id) verif_exc, g_base, g_ncalls, verif_errno; C17_PRESENT(self, id): C17_ELEM(self, id)->used
 
 #if !C17_FLOAT
@@ -128,10 +135,8 @@ __CPROVER_ensures(verif_exc == EXC_none || verif_exc == EXC_invalid_argument)
 __CPROVER_ensures((verif_exc == EXC_none && C17_DECIDED) ==> __CPROVER_return_value == C17_VALUE)
 __CPROVER_ensures(g_base == C17_SPEC_BASE(format))
 __CPROVER_ensures(C17_ELEM(self, id)->used)                         /* the argument was read, valid or not */
-__CPROVER_ensures(C17_ELEM_FRAME(self, id))
 #else
 __CPROVER_ensures(verif_exc == EXC_out_of_range)
-__CPROVER_ensures(C17_POS_FRAME_ALL(self) && C17_NAMED_FRAME_ALL)
 #endif
 __CPROVER_assigns(C17_TYPED_ASSIGNS(self, id));
 
@@ -146,10 +151,8 @@ __CPROVER_ensures(verif_exc == EXC_none || verif_exc == EXC_invalid_argument)
 __CPROVER_ensures((verif_exc == EXC_none && C17_DECIDED) ==> __CPROVER_return_value == C17_VALUE)
 __CPROVER_ensures(g_base == C17_SPEC_BASE(format))
 __CPROVER_ensures(C17_ELEM(self, id)->used)
-__CPROVER_ensures(C17_ELEM_FRAME(self, id))
 #else
 __CPROVER_ensures(verif_exc == EXC_none && __CPROVER_return_value == default_value)      /* the supplied default */
-__CPROVER_ensures(C17_POS_FRAME_ALL(self) && C17_NAMED_FRAME_ALL)
 #endif
 __CPROVER_assigns(C17_TYPED_ASSIGNS(self, id));
 #else
@@ -162,10 +165,8 @@ __CPROVER_ensures((verif_exc == EXC_none) == C17_COMPLETE(C17_ETEXT(self, id)))
 __CPROVER_ensures(verif_exc == EXC_none || verif_exc == EXC_invalid_argument)
 __CPROVER_ensures(verif_exc == EXC_none ==> C17_FEQ(__CPROVER_return_value, (RetT)g_fval))
 __CPROVER_ensures(C17_ELEM(self, id)->used)
-__CPROVER_ensures(C17_ELEM_FRAME(self, id))
 #else
 __CPROVER_ensures(default_value.has_value ? (verif_exc == EXC_none && C17_FEQ(__CPROVER_return_value, default_value.value)) : verif_exc == EXC_out_of_range)
-__CPROVER_ensures(C17_POS_FRAME_ALL(self) && C17_NAMED_FRAME_ALL)
 #endif
 __CPROVER_assigns(C17_TYPED_ASSIGNS(self, id));
 #endif
